@@ -42,7 +42,7 @@ def numRelationOk (r : NumRelation) : Bool :=
   bound r.lhs && bound r.rhs &&
   match ratioAtPi baseQ piLo (closeRel r.lhs) (closeRel r.rhs),
         ratioAtPi baseQ piHi (closeRel r.lhs) (closeRel r.rhs) with
-  | some v1, some v2 => within v1 1 r.cls.tol && within v2 1 r.cls.tol
+  | some v1, some v2 => within v1 1 r.tol && within v2 1 r.tol
   | _, _ => false
 
 def numRelationsOk : Bool := numRelations.all numRelationOk
@@ -123,6 +123,12 @@ def mksIsTable (rows : List MatRow) : Bool :=
     !(gr.1 == .mks || gr.1 == .hmks)
     || (gr.2.value == p.1.value && gr.2.scale == p.1.unitScale && gr.2.dim == p.1.spec.dim)
 
+/-- `X_cgs` / `hcgs` really are CGS: no MKS current in their dimension (an electromagnetic
+    constant written there is the Gaussian counterpart, not the SI value under another name) -/
+def cgsHasNoCurrent (rows : List MatRow) : Bool :=
+  (rowsByConst rows).all fun p => p.2.all fun gr =>
+    !(gr.1 == .cgs || gr.1 == .hcgs) || !gr.2.dim.hasCurrent
+
 /-- every alternate name equals the principal name of its row, within the namespace -/
 def aliasesEqual (rows : List MatRow) : Bool :=
   (rowsByConst rows).all fun p =>
@@ -184,15 +190,19 @@ def unitVsConstOkByName (k : String) : Bool :=
 
 def oneBits : Nat := 4607182418800017408
 
-/-- … and already at the source level: both cells have the same normal form over the base
-    constants (the constant being stated in a coherent SI unit) -/
+/-- … and already at the source level: the unit cell and the value cell of the table row the
+    key comes from (principal name or alias) have the same normal form over the base constants
+    (the constant being stated in a coherent SI unit).  A unit symbol that is no constant key
+    passes; a constant key whose cells cannot be found fails. -/
 def unitVsConstSymbolicOk (k : String) : Bool :=
-  match constCells.lookup k, unitCells.lookup k, constTable.find? (fun c => c.spec.name == k) with
-  | some ce, some ue, some c =>
-    homonyms.contains k
-    || (c.unitScale == oneBits
-        && sameNormalForm ((ue.subst closedRatios)) ((ce.subst closedRatios)))
-  | _, _, _ => true
+  match constOfKey k with
+  | none => true
+  | some c =>
+    homonyms.contains k ||
+    match constCells.lookup c.spec.name, unitCells.lookup k with
+    | some ce, some ue =>
+      c.unitScale == oneBits && sameNormalForm (ue.subst closedRatios) (ce.subst closedRatios)
+    | _, _ => false
 
 def unitAndConstantAgreeSymbolic (excl : List String) : Bool :=
   unitCells.all fun p => excl.contains p.1 || unitVsConstSymbolicOk p.1
@@ -221,11 +231,26 @@ def constUnitsOk : Bool := constTable.all constUnitOk
 
 def valueOk (c : ConstRow) : Bool :=
   match Ref.C15.find? c.spec.name with
-  | some r => c.spec.dim == r.dim && within c.mag r.v r.cls.tol
+  | some r => c.spec.dim == r.dim && within c.mag r.v r.tol
   | none => false
 
 def valuesInClass (excl : List String) : Bool :=
   constTable.all fun c => excl.contains c.spec.name || valueOk c
+
+/-- a constant the 2019 SI fixes exactly carries, digit for digit, the recommended value of one
+    of the listed editions -/
+def editionOk (c : ConstRow) : Bool :=
+  match editions.lookup c.spec.name with
+  | none => true
+  | some es => es.any fun e => within c.mag e.2 guiseTol
+
+def editionsOk : Bool := constTable.all editionOk
+
+/-- which edition a row matches (for the evidence) -/
+def editionOf (c : ConstRow) : Option String :=
+  match editions.lookup c.spec.name with
+  | none => none
+  | some es => (es.find? fun e => within c.mag e.2 guiseTol).map (·.1)
 
 def valueOkByName (k : String) : Bool :=
   match constTable.find? (fun c => c.spec.name == k) with
